@@ -27,8 +27,8 @@ RULE = ('cases = the six built-in waveforms x parameter sets (period, amplitude,
         'partial sums against the mean square.  distinct = (wave, parameters); non-trivial = amplitude != 0 and period > 0')
 
 TRUSTED = ['Coq kernel + coqc 8.16.1', 'Coquelicot (Riemann integral)', 'tools/gen_periodic.py (translator, fail-closed)',
-           'Model/Harmonics.v hand model of AbstractHarmonicCoefficients / fourier_series / periodic_function '
-           '(source text pinned by the translator)',
+           'Model/Harmonics.v hand model of AbstractHarmonicCoefficients / fourier_series / periodic_function: the five generic methods and '
+           'periodic_function are regenerated and proved equal to it (C08c); the class header, the abstract stubs and fourier_series are pinned text',
            'R instance of rops: rmod x T = x - T floor(x/T) is taken as the meaning of float % / np.mod',
            'numpy cos/sin/mod/vectorize, float rounding (correspondence is checked to 1e-11 relative)']
 
